@@ -510,6 +510,22 @@ package backend
 //@   loop 0 invariant [suffix] events.obj == old(events.obj) && events.off+len(events) == old(events.off+len(events)) && len(events) <= old(len(events)) && events.off >= old(events.off)
 //@   loop 0 invariant [events-are-objects] forall(i, 0 <= i && i < len(events), events[i] != nil)
 
+// filterByPrefix keeps exactly the events under the watcher's prefix, in order: in every step the
+// current event is appended exactly when its key has the prefix and nothing already kept changes
+// (the step statements together are "the result is the sub-sequence of the events under the prefix")
+//@ func filterByPrefix(events, prefix) (result)
+//@   props C05 C20
+//@   requires@trusted [events-are-objects] forall(i, 0 <= i && i < len(events), events[i] != nil && events[i].Kv != nil)
+//@   modifies []*proto.Event
+//@   ensures [only-events-under-the-prefix] forall(k, 0 <= k && k < len(result), result[k] != nil && result[k].Kv != nil && under_prefix(result[k].Kv.Key, prefix))
+//@   ensures [no-more-than-given] len(result) <= len(events)
+//@   loop 0 invariant [only-events-under-the-prefix] forall(k, 0 <= k && k < len(filteredEventList), filteredEventList[k] != nil && filteredEventList[k].Kv != nil && under_prefix(filteredEventList[k].Kv.Key, prefix))
+//@   loop 0 invariant [events-are-objects] forall(i, 0 <= i && i < len(events), events[i] != nil && events[i].Kv != nil) && filteredEventList.obj != events.obj
+//@   loop 0 invariant [no-more-than-seen] len(filteredEventList) <= rangeindex+1 && len(filteredEventList) <= cap(filteredEventList) && cap(filteredEventList) == len(events) && rangeindex >= -1 && rangeindex < len(events)
+//@   loop 0 step_lemma [kept-exactly-when-under-the-prefix] len(filteredEventList) == head(len(filteredEventList)) + ite(has_prefix(event.Kv.Key, prefix), 1, 0)
+//@   loop 0 step_lemma [the-kept-event-is-the-current-one] has_prefix(event.Kv.Key, prefix) ==> filteredEventList[len(filteredEventList)-1] == event
+//@   loop 0 step_lemma [what-was-kept-stays] forall(k, 0 <= k && k < head(len(filteredEventList)), filteredEventList[k] == head(filteredEventList[k]))
+
 // C05: the hand-over from cached history to the live stream leaves no gap: when the request falls
 // inside the cached window the live filter starts no later than right after the newest cached event
 // (everything newer is still to be broadcast to the subscription made before the lookup)
